@@ -156,6 +156,17 @@ pub fn run(em: &mut Emit, thorough: bool, seed: u64) {
               "1ms1us1ns", "1m30", "1.5.5s", "1..5s", "١s", "1ｓ", "1h\n", "+-1s", "-+1s", "1e", "0x10s", "1_000s"] {
         text(em, s, "text");
     }
+    // long digit strings: integer and fractional parts far beyond what 64 (or 128) bits hold
+    for &n in &[19usize, 20, 25, 26, 30, 38, 39, 40, 41, 60, 127, 128, 129, 200, 400] {
+        for unit in ["s", "ms", "h", "ns"] {
+            for (ip, fp) in [("1".to_string(), "9".repeat(n)), ("0".to_string(), format!("{}1", "0".repeat(n - 1))),
+                             ("1".to_string(), "0".repeat(n)), ("0".repeat(n), "5".to_string()),
+                             ("0".to_string(), "123456789".repeat(n / 9 + 1)[..n].to_string()), ("9".repeat(n), "0".to_string())] {
+                text(em, &format!("{}.{}{}", ip, fp, unit), "text-long");
+                text(em, &format!("-{}.{}{}", ip, fp, unit), "text-long");
+            }
+        }
+    }
     let mut rng = Rng::new(seed ^ 0xC15);
     let n = if thorough { 150_000 } else { 5_000 };
     for _ in 0..n {
